@@ -119,6 +119,8 @@ TRANSL = {
  "C09": "KBNSummer.Add/Sum, Vector.Sum/AddVec/SubVec/scaleInPlace/ScaleVec/Assign/Clone/Reset/SetDim and VecDot",
  "C10": "CSMatrix.Dim/NNZ/SetMinorDim/Transpose, NewCSRMatrix, RowVector/SetRowVector",
  "C11": "mergeSpan and Vector.Merge (incl. the overlay property stated on the translated code)",
+ "C15": "the playground's iterationBound (the iteration bound of the repair e85c9dc; proved equal to the model's pgIterBound, between 2 and 65536 for all inputs)",
+ "C20": "the playground's iterationBound (the iteration bound of the repair e85c9dc; proved equal to the model's pgIterBound)",
  "C18": "NewFlatTailChecker, FlatTailChecker.Update/Reached/Stats and basic.Compute itself (the stop rule)",
 }
 
